@@ -61,6 +61,9 @@ type Chain struct {
 	// checkSpend validates input idx of tx against the referenced output (chain specific).
 	checkSpend func(c *Chain, tx *ChainTx, idx int, prev *ChainTx, out ChainOut) error
 	salt       int
+	// KeepHistory makes every version of the ground truth available through Snaps.
+	KeepHistory bool
+	Snaps       []ChainSnap
 	// HeightOffset is added to every height reported to nodes (heights near 2^32 without materialising blocks).
 	HeightOffset uint32
 	// RejectAll makes Broadcast fail (fault injection), counted down when > 0.
@@ -103,6 +106,7 @@ func (c *Chain) SetHeight(h uint32) {
 		c.hashes = append(c.hashes, c.mkHash(uint32(len(c.hashes))))
 	}
 	c.Version++
+	c.snapLocked()
 }
 
 // JumpTo sets the tip height without materialising every block hash (heights near 2^32).
@@ -141,6 +145,7 @@ func (c *Chain) mineLocked() {
 		}
 	}
 	c.Version++
+	c.snapLocked()
 	c.w.emitLocked("", 0, "chain.block", EvBlock{Chain: c.Name, Height: h})
 }
 
@@ -164,6 +169,15 @@ func (c *Chain) Unconfirmable(id string) {
 	}
 }
 
+// Confirmable undoes Unconfirmable.
+func (c *Chain) Confirmable(id string) {
+	c.w.mu.Lock()
+	defer c.w.mu.Unlock()
+	if tx := c.txs[id]; tx != nil {
+		tx.NoMine = false
+	}
+}
+
 // Reorg replaces the last k blocks by k+extra new ones. Transactions confirmed in
 // the removed blocks go back to the mempool (reconfirm=false) or are re-mined in the
 // first new block (reconfirm=true).
@@ -182,6 +196,7 @@ func (c *Chain) Reorg(k int, extra int, reconfirm bool) {
 		}
 	}
 	c.Version++
+	c.snapLocked()
 	c.w.emitLocked("", 0, "chain.reorg", EvBlock{Chain: c.Name, Height: newTip})
 	for i := 0; i < k+extra; i++ {
 		if reconfirm || i > 0 {
@@ -191,6 +206,7 @@ func (c *Chain) Reorg(k int, extra int, reconfirm bool) {
 			h := uint32(len(c.hashes))
 			c.hashes = append(c.hashes, c.mkHash(h))
 			c.Version++
+			c.snapLocked()
 			c.w.emitLocked("", 0, "chain.block", EvBlock{Chain: c.Name, Height: h})
 		}
 	}
@@ -279,6 +295,7 @@ func (c *Chain) broadcast(hexStr, by, kind string, wallet bool) (*ChainTx, error
 	c.txs[tx.ID] = tx
 	c.order = append(c.order, tx.ID)
 	c.Version++
+	c.snapLocked()
 	c.w.emitLocked(by, 0, "chain.accept", EvTx{Chain: c.Name, Op: kind, TxID: tx.ID, Hex: hexStr, Tip: tip})
 	return tx, nil
 }
